@@ -127,6 +127,18 @@ def orchestrator_oracles(ops, cls_size):
         for reg, h in op.H.items():
             if reg in req and req[reg] <= 4096 and "al" in h and h["al"] % req[reg] != 0:
                 out.append(("align-req", i, "%s as_ptr mod %d = %d after `%s`" % (reg, req[reg], h["al"] % req[reg], op.line)))
+        # --- serde: the up-front reservation never asks for more than 1024 elements
+        if n in ("deserialize", "deserialize_in_place") and len(a) >= 3:
+            first = [e for e in op.events if e[0] in "AR"][:1]
+            for e in first:
+                sz = int(e.split()[1]) if e[0] == "A" else int(e.split()[3])
+                al = int(e.split()[2])
+                lim = ((24 + al - 1) // al) * al + 1024 * cls_size + al
+                nitems = len([x for x in a[2][3:-1].split(",") if x and x != "E"])
+                if sz > lim and nitems <= 1024:
+                    out.append(("serde-prealloc", i, "`%s`: first allocator request of %d bytes exceeds header + 1024 elements (%d)" % (op.line[:60], sz, lim)))
+            if before is not None and after is not None and after[1] > max(before[1], 2047):
+                out.append(("serde-prealloc", i, "`%s`: capacity %d -> %d" % (op.line[:60], before[1], after[1])))
         if before is not None and after is None:
             # the register is borrowed by the iterator it just handed out (drain / splice / drain_filter) or was consumed
             mr0 = must_reject(op, before[0], before[1])
